@@ -236,7 +236,9 @@ func getECDSAAlgorithm(keySize int) httpsig.SignatureAlgorithm {
 		return httpsig.EcdsaP256Sha256
 	case 384: //nolint: mnd
 		return httpsig.EcdsaP384Sha384
-	case 512: //nolint: mnd
+	case 512, 521: //nolint: mnd
+		// the size of a key for the P-521 curve, as reported by the key store, is 521 bits
+		// (not 512, like the hash used with it)
 		return httpsig.EcdsaP521Sha512
 	default:
 		panic(fmt.Sprintf("unsupported ECDSA key size: %d", keySize))
